@@ -112,7 +112,8 @@ def build_store_project(root, scn):
             f.write("kept results\n")
     g = scn.get("git")
     if g:
-        P.git(root, "init", "-q")
+        # g["sha256"]: a repository whose object ids are SHA-256 (64 hex digits) - `git init --object-format=sha256`
+        P.git(root, "init", "-q", *(["--object-format=sha256"] if g.get("sha256") else []))
         with open(os.path.join(root, ".gitignore"), "w") as f:
             f.write("cond-out/\n.ctl/\n")
         commits = []
@@ -539,6 +540,11 @@ def run_history(scn):
                 continue
             if cmd == "damage":
                 damage_archive(os.path.join(root, st["archive"]), st["how"], st.get("arg"))
+                continue
+            if cmd == "downgrade":
+                # the project was last touched by an old Conductor: its index is still in format 1 (the next command migrates it)
+                P.downgrade_index(root)
+                before = CLI.project_store(root)
                 continue
             if cmd == "retype":
                 # the project's sources change between invocations: a task that used to be an experiment (and has recorded
